@@ -145,6 +145,8 @@ def run(ctx):
     # clones: equal data_ids at different depths and sibling positions, a node below its own clone (anything remembered per
     # data_id instead of per node shows here)
     clone_specs = [
+        # renderings that are empty, end in white space or are white space only (a line is prefix + rendering, unchanged)
+        [(30, [(31, [(32, [])]), (0, [])]), (31, [(30, [])]), (32, [])],
         [(0, [(1, []), (0, [(2, [])])]), (3, [])],
         [(0, [(0, [(0, [(1, [])]), (2, [])]), (1, [])]), (2, [(0, [])])],
         [(0, [(1, [(2, [])])]), (1, [(2, []), (0, [(1, [])])])],
